@@ -1954,9 +1954,11 @@ def _te_inline(self, func: FuncInfo, depth: int = 3, stop=None) -> Summary:
     resolved, non-recursive, non-generator) substituted in place, `depth` levels deep: what the function does, however
     the work is split over helpers.  Path conditions of callee effects are prefixed with the call's own condition."""
     key = ("inl", id(func.node), depth, id(stop))
-    if key not in self._cache:
-        self._cache[key] = _inline(self, func, depth, (), stop)
-    return self._cache[key]
+    hit = self._cache.get(key)
+    if hit is None or hit[0] is not stop:
+        # (the entry keeps `stop` alive: the id of a predicate that was freed could be handed to another one)
+        hit = self._cache[key] = (stop, _inline(self, func, depth, (), stop))
+    return hit[1]
 
 
 TermEval.inline = _te_inline
